@@ -3,6 +3,7 @@ package actionlint
 import (
 	"strconv"
 	"strings"
+	"unicode/utf8"
 )
 
 //go:generate go run ./scripts/generate-availability ./availability.go
@@ -631,8 +632,22 @@ func (rule *RuleExpression) checkIfCondition(str *String, workflowKey string) {
 		}
 
 		p := NewExprParser()
-		expr, err := p.Parse(NewExprLexer(src))
+		l := NewExprLexer(src)
+		expr, err := p.Parse(l)
 		if err != nil {
+			rule.exprError(err, line, col)
+			return
+		}
+		if end := l.Offset() - 2; end < len(str.Value) {
+			// The lexer stopped at "}}" written in the condition itself. The rest of the condition
+			// would be ignored silently
+			before := src[:end]
+			err := &ExprError{
+				Message: "parser did not reach end of input after parsing the expression. unexpected \"}}\" in \"if\" condition which is not surrounded by ${{ }}",
+				Offset:  end,
+				Line:    strings.Count(before, "\n") + 1,
+				Column:  utf8.RuneCountInString(before[strings.LastIndexByte(before, '\n')+1:]) + 1,
+			}
 			rule.exprError(err, line, col)
 			return
 		}
